@@ -1,6 +1,8 @@
 package main
 
 import (
+	"os"
+	"runtime/debug"
 	"fmt"
 	"go/constant"
 	"go/token"
@@ -121,6 +123,7 @@ type Gen struct {
 	cellCtr  int
 	globals  map[*ssa.Global]*Cell
 	cellGlobal map[*Cell]*ssa.Global
+	renames  map[string]string // recorded local name -> current local name (source-order alignment, rename.go)
 	escaped  map[*Cell][2]string // locals moved to the pointer heap: heap name, location
 	entry    *State
 	concrete bool
@@ -143,6 +146,9 @@ type engineError struct{ msg string }
 func (e engineError) Error() string { return e.msg }
 
 func (g *Gen) fail(format string, args ...interface{}) {
+	if os.Getenv("GOVC_TRACE") != "" {
+		debug.PrintStack()
+	}
 	panic(engineError{fmt.Sprintf(format, args...)})
 }
 
